@@ -103,3 +103,58 @@ Theorem C01_index_roundtrip_refuted_65536 : forall cdims es f eof,
     read_index f' eof 8 cdims = COk [] /\ map (expected_entry cdims) (sort_entries es) <> [].
 Proof. exact index_count_wraps_refuted. Qed.
 Print Assumptions C01_index_roundtrip_refuted_65536.
+
+(* the reader's coordinate lookup (the chunkIndex map of the hyperslab reader; lookup_chunk): when the reader's
+   key -> coordinate map (division by the chunk extents) is injective on the written keys, every written entry is
+   found under its coordinate with its own address and size, and nothing is found under any other coordinate *)
+Theorem C01_index_lookup_partial : forall cdims es f eof,
+  index_pre cdims es eof = true ->
+  NoDup (map (sc_of cdims) es) ->
+  exists f' chunks,
+    write_index (length cdims) es f eof = Outcome.Ok (f', eof + Bytes.blen (serialize_leaf (length cdims) es), eof) /\
+    read_index f' eof 8 cdims = COk chunks /\
+    (forall e, In e es -> lookup_chunk (length cdims) chunks (sc_of cdims e) = Some (w_addr e, w_nbytes e)) /\
+    (forall c, ~ In c (map (sc_of cdims) es) -> lookup_chunk (length cdims) chunks c = None).
+Proof. exact index_lookup. Qed.
+Print Assumptions C01_index_lookup_partial.
+
+(* ... and on the keys the dataset writer produces (chunk coordinate times chunk extent) that map is injective:
+   different chunk coordinates are never confused *)
+Theorem C01_index_keys_injective : forall cdims coords,
+  posl cdims -> Forall (fun c => length c = length cdims) coords -> NoDup coords ->
+  NoDup (map (fun c => scaled_of_key cdims (chunk_key cdims c)) coords).
+Proof. exact grid_keys_injective. Qed.
+Print Assumptions C01_index_keys_injective.
+
+(* reader side of the composition, all ranks / grids / element sizes / data: when the index of the file reads back as
+   a permutation of the written entries (C01_index_roundtrip_partial), the written keys are the offsets of the grid
+   chunks, and the file holds for every entry the padded chunk of its coordinate at the recorded address with the
+   recorded size, readChunkedData returns the data (index -> chunk bytes -> placement, C01_chunk_tiling inside) *)
+Theorem C01_chunked_read_composition : forall dims cdims esz data,
+  shape_ok dims cdims esz -> lenN data = vol dims esz ->
+  forall f root es,
+  vol dims esz <= MAX_CHUNK * 1024 -> esz <= 4294967295 ->
+  (exists S, Permutation S es /\ read_index f root 8 cdims = COk (map (expected_entry cdims) S)) ->
+  Permutation (map w_coord es) (map (chunk_key cdims) (all_chunk_coords dims cdims)) ->
+  Forall (entry_stored dims cdims esz data f) es ->
+  read_chunked_file f root 8 dims cdims esz = COk data.
+Proof. exact read_chunked_file_correct. Qed.
+Print Assumptions C01_chunked_read_composition.
+
+(* write the index after the chunks, read everything back.  _partial: the chunk loop of writeChunkedData
+   (write_chunk_loop: allocate at the end of file, write, record address and size) is modelled but its effect is a
+   HYPOTHESIS here - every recorded entry has its chunk's bytes at its address, below the index's address
+   (entry_stored, w_addr + w_nbytes <= eof) - and so is "the recorded keys are the grid offsets"; what is proved is
+   that the index write keeps those bytes and that the reader then returns exactly the data.  Filters: none
+   (identity); entry count <= 65534 (index_pre). *)
+Theorem C01_chunked_end_to_end_partial : forall dims cdims esz data es f eof,
+  shape_ok dims cdims esz -> lenN data = vol dims esz ->
+  vol dims esz <= MAX_CHUNK * 1024 -> esz <= 4294967295 ->
+  index_pre cdims es eof = true ->
+  Permutation (map w_coord es) (map (chunk_key cdims) (all_chunk_coords dims cdims)) ->
+  Forall (fun e => entry_stored dims cdims esz data f e /\ w_addr e + w_nbytes e <= eof) es ->
+  exists f',
+    write_index (length dims) es f eof = Outcome.Ok (f', eof + Bytes.blen (serialize_leaf (length cdims) es), eof) /\
+    read_chunked_file f' eof 8 dims cdims esz = COk data.
+Proof. exact chunked_end_to_end_partial. Qed.
+Print Assumptions C01_chunked_end_to_end_partial.
